@@ -82,6 +82,39 @@ func checkDenotes(scen string, in In) *mc.Violation {
 	return nil
 }
 
+// HeldIn: two fields parsed one after the other; the first result is looked at again after the second call.
+type HeldIn struct {
+	First, Second In
+}
+
+// checkHeld: a parsed value belongs to its caller - whatever the library is asked next, the value must still denote
+// the field it was parsed from (no relation, alternative, qualifier, architecture list or profile group of an earlier
+// result may live in storage that a later call writes to).
+func checkHeld(scen string, in HeldIn) *mc.Violation {
+	var d1, d2 *dependency.Dependency
+	var e1, e2 error
+	var before string
+	if p, msg := mc.Guard(func() {
+		d1, e1 = parseVia(in.First.Via, in.First.Text)
+		if e1 == nil {
+			before = gen.CanonDep(d1)
+		}
+		d2, e2 = parseVia(in.Second.Via, in.Second.Text)
+	}); p {
+		return mc.V(scen, "parse-returns", in, "no panic", "panic: "+msg)
+	}
+	if e1 != nil || e2 != nil || before != in.First.Canon {
+		return nil // each field on its own is the other scenarios' business
+	}
+	if got := gen.CanonDep(d2); got != in.Second.Canon {
+		return mc.V(scen, "structure-exact", in, in.Second.Canon, "second field, parsed after the first: "+got)
+	}
+	if after := gen.CanonDep(d1); after != in.First.Canon {
+		return mc.V(scen, "structure-exact", in, in.First.Canon, "the first result, looked at again after the second call: "+after)
+	}
+	return nil
+}
+
 // MalIn is the replayable input for the corruption scenario.
 type MalIn struct {
 	Text string
@@ -209,6 +242,29 @@ func Run(r *mc.Run) {
 			}
 			if st.WantSample() && i%1201 == 77 {
 				st.Sample(in.Text)
+			}
+		}
+		return true
+	})
+
+	// results held across calls: all ordered pairs of the <=2-possibility fields (and of the single shapes, thinned)
+	heldSet := gen.DepFields(reps, 2)
+	for i := 0; i < len(sh); i += r.Pick(97, 23) {
+		heldSet = append(heldSet, gen.ADep{gen.ARel{sh[i]}})
+	}
+	r.Scenario("results-held-across-calls", map[string]interface{}{"fields": len(heldSet), "pairs": len(heldSet) * len(heldSet), "entry_points": "Parse / UnmarshalControl"}, len(heldSet), func(i int, st *mc.Stats) bool {
+		for j := range heldSet {
+			for _, via := range []string{"parse", "control"} {
+				in := HeldIn{In{heldSet[i].Render(), heldSet[i].Canon(), nil, via}, In{heldSet[j].Render(), heldSet[j].Canon(), nil, via}}
+				st.Evals++
+				st.Traces++
+				st.Nontrivial++
+				if v := checkHeld("results-held-across-calls", in); v != nil {
+					st.Violate(v)
+					st.Class(v.Clause)
+				} else {
+					st.Class("both-exact")
+				}
 			}
 		}
 		return true
@@ -372,6 +428,15 @@ func Replay(scenario string, raw json.RawMessage) []*mc.Violation {
 		var in MalIn
 		if mc.UnmarshalInput(raw, &in) == nil {
 			if v, _ := checkCorrupted(scenario, in); v != nil {
+				return []*mc.Violation{v}
+			}
+		}
+		return nil
+	}
+	if scenario == "results-held-across-calls" {
+		var in HeldIn
+		if mc.UnmarshalInput(raw, &in) == nil {
+			if v := checkHeld(scenario, in); v != nil {
 				return []*mc.Violation{v}
 			}
 		}
